@@ -38,6 +38,7 @@ func optionInput(r *mon.Rng, kind string) string {
 }
 
 var optionPatterns = []string{
+	"", " ", "\n", "\ufeffab 1", "\ufeff", "\ufeff\ufeff x", "\u200bq", "\u2060 1",
 	strings.Repeat("/**/", 600) + "x", "a " + strings.Repeat("😀", 600) + " b", strings.Repeat("\uffff", 530) + "1", strings.Repeat(" /*c*/", 520), strings.Repeat("#c\n", 515) + "z", "1e309 2E+308 17976931348623159e292 1e308 " + strings.Repeat("9", 320),
 	"a /*c*/ b", "a /*c*/12", "/*c*/12", "/*c*/ш", "/*c*/😀", " /*c*/ ", "a 😀 b", "😀😀", "a😀", "😀 😀", " 😀 ", "1😀2", "/*a*//*b*/", "/*a*/ /*b*/", "'q'/*c*/'r'", "/*c*/'q'",
 	"# c\n12", "a # c\n b", " # c\n ", "#a\n#b\n", "a ￿ b", "￿12", "12￿", "￿￿ x", "/*c*/￿", "😀/*c*/", "  a  ", "\t\n 1 \r\n", "'it''s' \"x\"\"y\"",
@@ -380,7 +381,7 @@ var reLineCol = regexp.MustCompile(`at line (\d+) and column (\d+)`)
 func c12ErrorPositions(cfg *mon.Config) *mon.Sub {
 	return &mon.Sub{
 		Name:  "syntax-error-positions",
-		Rule:  "seeded valid expressions printed with random blanks, tabs and line breaks of all four styles between tokens, made malformed by one stray token at a known offset (an unknown symbol '@' anywhere, or an identifier / constant / ')' appended after the complete expression, or ')' / '*' put in front, or a stray constant before the ')' of a call or the ']' of an index, or a keyword operator written twice in a row in an expression that already uses that keyword); the line and column quoted in the error message must be the coordinates the independent line/column model gives for the first character of that token; non-trivial = multi-line source",
+		Rule:  "seeded valid expressions printed with random blanks, tabs and line breaks of all four styles between tokens, made malformed by one stray token at a known offset (an unknown symbol '@' anywhere, or an identifier / constant / ')' appended after the complete expression, or ')' / '*' put in front, or a stray constant before the ')' of a call or the ']' of an index, or a keyword operator written twice in a row in an expression that already uses that keyword, or a unary minus followed by a token that cannot start an operand); the line and column quoted in the error message must be the coordinates the independent line/column model gives for the first character of that token; non-trivial = multi-line source",
 		Floor: 200,
 		Gen: func(emit func(string)) {
 			r := cfg.Rng("c12-errpos")
@@ -388,9 +389,24 @@ func c12ErrorPositions(cfg *mon.Config) *mon.Sub {
 			seps := []string{" ", "  ", "\t", "\n", "\r\n", "\n\r", "\r", " \n ", "/* c */ ", "/* a\nb */"}
 			for i := 0; i < cfg.N(3000, 100000); i++ {
 				toks := model.Tokens(g.typed(1+r.Intn(3), mon.Pick(r, []string{"int", "bool", "str"})), nil)
-				mode := r.Intn(6)
+				mode := r.Intn(7)
 				at := -1
 				stray := ""
+				minusFirst := false
+				if mode == 6 {
+					// a unary minus, then (often on the next line) a token that cannot start an operand
+					toks = model.Tokens(g.typed(1+r.Intn(3), "int"), nil)
+					var after []int
+					for k, t := range toks {
+						if t == "*" || t == "/" || t == "(" || t == "," {
+							after = append(after, k+1)
+						}
+					}
+					at, stray, minusFirst = 0, mon.Pick(r, []string{")", "*", ",", "]", "/"}), true
+					if len(after) > 0 {
+						at = mon.Pick(r, after)
+					}
+				}
 				if mode == 4 {
 					// a keyword operator written twice in a row, in an expression that uses the same keyword before
 					toks = model.Tokens(g.typed(2+r.Intn(3), "bool"), nil)
@@ -440,6 +456,10 @@ func c12ErrorPositions(cfg *mon.Config) *mon.Sub {
 					stray = mon.Pick(r, []string{")", "*", "]", ","})
 				}
 				all := append(append(append([]string{}, toks[:at]...), stray), toks[at:]...)
+				if minusFirst {
+					all = append(append(append([]string{}, toks[:at]...), "-", stray), toks[at:]...)
+					at++
+				}
 				var b strings.Builder
 				if r.Chance(1, 8) { // vertical tab / form feed in front are not trimmed by the parser
 					b.WriteString(mon.Pick(r, []string{"\v", "\f", "\v\n", "\f "}))
@@ -502,7 +522,7 @@ func c12ErrorPositions(cfg *mon.Config) *mon.Sub {
 func c12CompiledPositions(cfg *mon.Config) *mon.Sub {
 	return &mon.Sub{
 		Name:  "compiled-token-positions",
-		Rule:  "seeded valid expressions (boolean and integer trees with repeated keywords, names and constants) printed with random blanks, tabs, comments and line breaks of all four styles between tokens: every token of the parser's initial token list must carry the line and column (by the independent line/column model) at which one of the source tokens starts, in strictly increasing source order, and every token of the compiled program must carry such a position too; non-trivial = multi-line source with a repeated spelling",
+		Rule:  "seeded valid expressions (boolean and integer trees with repeated keywords, names and constants) printed with random blanks, tabs, comments and line breaks of all four styles between tokens: every token of the parser's initial token list must carry the line and column (by the independent line/column model) at which one of the source tokens starts, in strictly increasing source order, and every token of the compiled program must carry such a position too - a function or variable token that of a source token spelling its name (nested calls!); non-trivial = multi-line source with a repeated spelling",
 		Floor: 200,
 		Gen: func(emit func(string)) {
 			r := cfg.Rng("c12-compiled")
@@ -547,10 +567,29 @@ func c12CompiledPositions(cfg *mon.Config) *mon.Sub {
 				}
 				prev = k
 			}
+			srcToks := strings.Split(c.Payload[:i], ",")
+			rs := []rune(src)
+			textAt := func(k int) string { // the source token with index k: from its offset to the next blank, comment or token start
+				off, _ := strconv.Atoi(srcToks[k])
+				end := len(rs)
+				if k+1 < len(srcToks) {
+					end, _ = strconv.Atoi(srcToks[k+1])
+				}
+				return strings.TrimRight(string(rs[off:end]), " \t\r\n")
+			}
 			for n, t := range p.ResultTokens() {
-				if _, ok := starts[[2]int{t.Line(), t.Column()}]; !ok && (t.Line() != 0 || t.Column() != 0) {
+				k, ok := starts[[2]int{t.Line(), t.Column()}]
+				if !ok && (t.Line() != 0 || t.Column() != 0) {
 					c.Failf("a token of the compiled program carries a position at which no source token starts", "source=%q program token #%d (type %d) reports line %d column %d", src, n, t.Type(), t.Line(), t.Column())
 					return
+				}
+				// a function or variable token points at a source token that spells its name
+				if ok && (t.Type() == parsers.Function || t.Type() == parsers.Variable) {
+					name := snap(t.Value()).V
+					if at := textAt(k); !strings.HasPrefix(strings.ToUpper(strings.Trim(at, "\"")), strings.ToUpper(name)) && !strings.HasPrefix(strings.ToUpper(at), strings.ToUpper(name)) {
+						c.Failf("a token of the compiled program carries the position of another source token", "source=%q program token #%d (%s %q) reports line %d column %d, where the source has %q", src, n, map[bool]string{true: "function", false: "variable"}[t.Type() == parsers.Function], name, t.Line(), t.Column(), at)
+						return
+					}
 				}
 			}
 			c.Count("positions-checked")
